@@ -70,7 +70,11 @@ impl QueuingMetricSinkBuilder {
 
         spawn_worker_in_thread(worker.clone());
 
-        QueuingMetricSink { worker, sink }
+        let stopper = Arc::new(Stopper {
+            worker: worker.clone(),
+        });
+
+        QueuingMetricSink { worker, sink, stopper }
     }
 
     /// Set error handler called when the wrapped sink fails to emit a metric.
@@ -145,6 +149,10 @@ impl QueuingMetricSinkBuilder {
 pub struct QueuingMetricSink {
     worker: Arc<Worker>,
     sink: Arc<dyn MetricSink + Send + Sync + RefUnwindSafe>,
+    // Shared by all clones of a sink so that the worker is only stopped
+    // when the last of them is destroyed.
+    #[allow(dead_code)]
+    stopper: Arc<Stopper>,
 }
 
 impl fmt::Debug for QueuingMetricSink {
@@ -279,7 +287,13 @@ impl MetricSink for QueuingMetricSink {
     }
 }
 
-impl Drop for QueuingMetricSink {
+/// Handle shared by all clones of a `QueuingMetricSink` that stops the
+/// worker when the last clone is destroyed.
+struct Stopper {
+    worker: Arc<Worker>,
+}
+
+impl Drop for Stopper {
     /// Send the worker a signal to stop processing metrics.
     ///
     /// Note that this destructor only sends the worker thread a signal to
